@@ -622,6 +622,9 @@ func c11PeerVsServer(r *Run, variant string, extraBodies int, waitFinished bool)
 		seq = []*Rpc{env("x-tag", "v", "x-prog", "hold"), c11WithReset(env())}
 	case "finished-id":
 		seq = []*Rpc{env("x-tag", "v", "x-prog", "early:0")}
+	case "finished-badsend":
+		// the handler returned after one of its sends had failed in the codec
+		seq = []*Rpc{env("x-tag", "v", "x-prog", "badsend:0")}
 	}
 	stall := func(what string) bool {
 		r.Violate(scen+".wedged", "ops", "the server's read loop stopped reading its transport: "+what, in, c11Events(), goroutineDump())
@@ -864,7 +867,7 @@ func runC11(r *Run) {
 		reps := r.Scale(2, 20)
 	peerS:
 		for rep := 0; rep < reps; rep++ {
-			for _, v := range []string{"after-trailer", "after-reset", "finished-id"} {
+			for _, v := range []string{"after-trailer", "after-reset", "finished-id", "finished-badsend"} {
 				for _, wf := range []bool{false, true} {
 					for _, nb := range []int{1, 3} {
 						if !c11PeerVsServer(r, v, nb, wf) {
